@@ -129,7 +129,8 @@ class NodeExpandedDiGraph(nx.DiGraph):
             # Adding in-coming edges
             for pred in G.predecessors(node):
                 pred1 = pred + '.1'
-                self.add_edge(pred1, node0, **G.edges[pred, node])
+                # (the flow attribute lives on the nodes: a value of that name on an original edge must not reach the expanded graph)
+                self.add_edge(pred1, node0, **{key: value for key, value in G.edges[pred, node].items() if key != self.node_flow_attr})
                 self._edges_to_ignore.append((pred1, node0))
                 
                 # If the edge (pred,node) does not have the length attribute, set it to 0
@@ -140,7 +141,7 @@ class NodeExpandedDiGraph(nx.DiGraph):
             # Adding out-going edges
             for succ in G.successors(node):
                 succ0 = succ + '.0'
-                self.add_edge(node1, succ0, **G.edges[node, succ])
+                self.add_edge(node1, succ0, **{key: value for key, value in G.edges[node, succ].items() if key != self.node_flow_attr})
                 # This is not necessary, as the edge (node1, succ0) has already been added above, for succ
                 # self._edges_to_ignore.append((node1, succ0))
 
